@@ -222,7 +222,7 @@ def ob_directives():
 
 
 def tasks(tier):
-    P = ('C13', 'C10')
+    P = ('C13', 'C10', 'C17')          # C17: what write() prints for a character / string constant goes through these renderings
     return [task(MOD, 'ob_escape_images', P, label='py/asm/escape-images'),
             task(MOD, 'ob_escape_loop', P, label='py/asm/escape-loop'),
             task(MOD, 'ob_intliteral', P + ('C14',), label='py/asm/intliteral'),
